@@ -463,7 +463,9 @@ def r7_codec_stateless(ctx):
                 tg = st.targets if isinstance(st, ast.Assign) else [st.target]
                 mutable = isinstance(v, (ast.Call, ast.List, ast.Dict,
                                          ast.Set, ast.ListComp, ast.DictComp,
-                                         ast.SetComp))
+                                         ast.SetComp)) and not (
+                    isinstance(v, ast.Call) and U(v.func) in (
+                        're.compile', 'frozenset', 'tuple', 'object'))
                 for t in tg:
                     for x in ast.walk(t):
                         if isinstance(x, ast.Name) and mutable:
@@ -647,6 +649,83 @@ def r9_frames_are_ascii(ctx):
         raise AnalysisError('Packet.encode: no dumps call found')
 
 
+def nested_unbounded_repeat(pattern):
+    """True when the regular expression has an unbounded repetition whose
+    body itself contains an unbounded repetition or an alternation under
+    repetition ((a+)+, (a|aa)*, (?:x+/?)*): the classic exponential
+    backtracking shapes."""
+    import re._parser as rp
+    import re._constants as rc
+    try:
+        tree = rp.parse(pattern)
+    except Exception:
+        return False
+
+    def unbounded_inside(sub):
+        for op, av in sub:
+            if op in (rc.MAX_REPEAT, rc.MIN_REPEAT, rc.POSSESSIVE_REPEAT):
+                lo, hi, item = av
+                if hi == rc.MAXREPEAT or unbounded_inside(item):
+                    return True
+            elif op is rc.SUBPATTERN:
+                if unbounded_inside(av[3]):
+                    return True
+            elif op is rc.BRANCH:
+                return True     # alternation under a repetition
+            elif op in (rc.ATOMIC_GROUP,):
+                if unbounded_inside(av):
+                    return True
+        return False
+
+    def walk(sub):
+        for op, av in sub:
+            if op in (rc.MAX_REPEAT, rc.MIN_REPEAT):
+                lo, hi, item = av
+                if hi == rc.MAXREPEAT and unbounded_inside(item):
+                    return True
+                if walk(item):
+                    return True
+            elif op is rc.SUBPATTERN:
+                if walk(av[3]):
+                    return True
+            elif op is rc.BRANCH:
+                if any(walk(b) for b in av[1]):
+                    return True
+        return False
+    return walk(tree)
+
+
+def r10_regex_linear(ctx):
+    """a regular expression applied to text a client sent runs in time
+    polynomial in the text only if it has no nested unbounded repetition;
+    CPython's re holds the GIL while it backtracks, so one short frame can
+    stop every client of the process."""
+    assert nested_unbounded_repeat(r'/(?:[\w.~%@:+-]+/?)*')
+    assert nested_unbounded_repeat(r'(a+)+$')
+    assert not nested_unbounded_repeat(r'/[\w/.-]*')
+    ctx.ok('C12.R10', 'positive and negative controls of the nested-'
+           'repetition detector behave', 'sa/rules/c12.py')
+    m = ctx.model
+    for cname, _ in CODEC:
+        mod = m.cls(cname).module
+        for node in ast.walk(mod.tree):
+            if not (isinstance(node, ast.Call) and
+                    isinstance(node.func, ast.Attribute) and
+                    U(node.func.value) == 're' and node.args and
+                    isinstance(node.args[0], ast.Constant) and
+                    isinstance(node.args[0].value, str)):
+                continue
+            pat = node.args[0].value
+            ctx.check(not nested_unbounded_repeat(pat), mod.relpath,
+                      'regular expression %r has no nested unbounded '
+                      'repetition' % pat[:40], key='regex-backtracking',
+                      reason='the pattern %r nests unbounded repetitions: '
+                      'matching a frame of a few dozen characters that '
+                      'almost matches takes exponential time with the GIL '
+                      'held - one client stops the server for all' % pat,
+                      where='%s:%d' % (mod.relpath, node.lineno))
+
+
 def r6_answers(ctx, fam):
     m = ctx.model
     S = SERVER[fam]
@@ -701,6 +780,9 @@ def run(ctx):
              'must be refused) (shared rule)', floor=5)
     from .c04 import r6_manager
     r6_manager(ctx)
+    ctx.rule('C12.R10', 'regular expressions in the codec have no nested '
+             'unbounded repetition (controls built in)', floor=1)
+    r10_regex_linear(ctx)
     ctx.rule('C12.R9', 'frames are ASCII JSON: relayed strings are escaped '
              'again', floor=2)
     r9_frames_are_ascii(ctx)
